@@ -295,12 +295,14 @@ def make_forms(n, ka, timeout):
                     try:
                         got = [(x.type, x.var, x.cyclic) for x in graph.static_order(f)]
                     except Exception as e:  # noqa: BLE001
-                        return ("input_form_raised:" + fname + ":" + type(e).__name__, "forms", _d(adj, e))
+                        return ("input_form_raised:" + type(e).__name__, "forms:" + fname, _d(adj, e))
                     if got[:-1] != base[:-1]:
-                        return ("input_form_changes_order:" + fname, "forms", _d(adj, got, base))
+                        cyc = any(c for _, _, c in base)  # the graph has a cycle cut (KF16 concerns wrapped *cyclic* roots)
+                        return ("input_form_changes_order:" + ("cyclic_graph" if cyc else "acyclic_graph"), "forms:" + fname,
+                                _d(adj, got, base))
                     last = got[-1]
                     if fname in ("string", "forwardref", "repeat") and last != base[-1]:
-                        return ("input_form_changes_root:" + fname, "forms", _d(last, base[-1]))
+                        return ("input_form_changes_root", "forms:" + fname, _d(last, base[-1]))
             finally:
                 cleanup(mods)
         return None
